@@ -39,7 +39,7 @@ Proof. exact c09_supply_between. Qed.
    nothing else in the state changes. *)
 Theorem C09_withdraw_exact : ∀ c s sender to d amt s' q,
   step c s (MWithdraw sender to d amt) = (s', Ok q) →
-  ∃ a base, resolve c sender = Some a ∧ pairs s !! d = Some base ∧ (0 < amt)%Z ∧
+  ∃ a base, resolve c sender = Some a ∧ pairs s !! d = Some base ∧ (0 < amt < 18446744073709551616)%Z ∧
     (amt ≤ getb (bk s) a d)%Z ∧
     q = RSeq (next_l2 s) ∧ next_l2 s' = (next_l2 s + 1)%N ∧
     wlog s' = {| w_seq := next_l2 s; w_from := sender; w_to := to; w_denom := d; w_base := base;
@@ -52,7 +52,7 @@ Proof. exact c09_withdraw_exact. Qed.
 
 (* Conversely the listed guards suffice (the withdrawal is not rejected for any other reason). *)
 Theorem C09_withdraw_accepts : ∀ c s sender to d amt a base,
-  resolve c sender = Some a → to ≠ [] → valid_denom d = true → (0 < amt)%Z →
+  resolve c sender = Some a → to ≠ [] → valid_denom d = true → (0 < amt < 18446744073709551616)%Z →
   (amt ≤ getb (bk s) a d)%Z → (0 ≤ getb (bk s) (modacc c) d)%Z → pairs s !! d = Some base →
   ∃ s', step c s (MWithdraw sender to d amt) = (s', Ok (RSeq (next_l2 s))).
 Proof. exact c09_withdraw_accepts. Qed.
